@@ -263,8 +263,50 @@ def campaign(ctx, rounds):
                 g.close()
 
 
+def damaged_share_among_few_servers(ctx, rounds):
+    """Corpus family (was a genuine defect, fixed in /repo): more servers than shares, one share with a
+    valid signature but a truncated body; the read-cap reader's first survey (k+epsilon servers) may see
+    the damaged share and only k-1 others: the read must still succeed because k intact shares are
+    reachable on servers it has not asked yet."""
+    import grid
+    from allmydata.mutable.publish import MutableData
+    from allmydata.interfaces import SDMF_VERSION, MDMF_VERSION
+    for r in range(rounds):
+        seed = ctx.rng.randrange(1 << 30)
+        fmt = ctx.rng.choice([SDMF_VERSION, SDMF_VERSION, MDMF_VERSION])
+        with grid.Runtime(seed=seed) as rt:
+            g = grid.Grid(grid.fresh_dir("c10d"), rt, num_servers=6, k=2, happy=1, n=3)
+            try:
+                c = g.clients[0]
+                content = b"D" * ctx.rng.choice([1, 43, 300]) + b"-only-version"
+                node = rt.wait(c.create_mutable_file(MutableData(content), version=fmt))
+                files = g.share_files(node.get_storage_index())
+                for (i, sh, p) in files:
+                    raw = open(p, "rb").read()
+                    _, data = read_share(p)
+                    fl = share_fields(data)
+                    lo = max(fl["signature"][1], fl["pubkey"][1], 123)
+                    cut = DATA_OFFSET + ctx.rng.randrange(lo, max(lo + 1, len(data)))
+                    open(p, "wb").write(raw[:cut])
+                    st, val = try_read(rt, fresh_node(c, node.get_readonly_uri()))
+                    case = {"fmt": "SDMF" if fmt == SDMF_VERSION else "MDMF", "k": 2, "n": 3, "servers": 6, "seed": seed,
+                            "tampered": ["%d/%d:truncate@%d" % (i, sh, cut - DATA_OFFSET)], "result": st}
+                    if st == "ok" and val != content:
+                        ctx.violation("read returned bytes that no version ever published", dict(case, got=val.hex()[:80]),
+                                      "unpublished-bytes:campaign")
+                    elif st != "ok":
+                        ctx.violation("k intact shares of the newest version were reachable but the read did not return it",
+                                      dict(case, got=val), "newest-not-returned")
+                    ctx.case(repr(sorted(case.items())))
+                    ctx.count("damaged-among-few:" + st)
+                    open(p, "wb").write(raw)
+            finally:
+                g.close()
+
+
 def run(ctx):
     import common
     common.setup_impl_path()
     single_share_cases(ctx, ctx.budget(3, 60))
+    damaged_share_among_few_servers(ctx, ctx.budget(14, 200))
     campaign(ctx, ctx.budget(8, 300))
